@@ -29,23 +29,35 @@ struct Arena<const N: usize>([u8; N]);
 pub fn elem_params(t: &str) -> (usize, usize) {
     match t { "u8" => (1, 1), "u16" => (2, 2), "b3" => (3, 1), "u32" => (4, 4), "u64" => (8, 8), "a16" => (16, 16), "m35" => (35, 1), "zst" => (0, 1), "t12" => (12, 4), "t24" => (24, 8), _ => panic!("elem type {t}") }
 }
-pub fn prefix_width(l: &str) -> usize { match l { "p16" => 2, "p32" => 4, "p64" => 8, "p128" => 16, _ => panic!("prefix {l}") } }
+pub fn prefix_width(l: &str) -> usize { match l { "p8" => 1, "p16" | "r16" => 2, "p32" => 4, "p64" => 8, "p128" => 16, _ => panic!("prefix {l}") } }
+/// `r16` is the primitive `u16`: it satisfies the `PodLength` bounds but is 2-aligned, which `header_padding` rejects
+pub fn prefix_supported(l: &str) -> bool { l != "r16" }
 pub const ELEMS: &[&str] = &["u8", "u16", "b3", "u32", "u64", "a16", "m35", "zst", "t12", "t24"];
-pub const PREFIXES: &[&str] = &["p16", "p32", "p64", "p128"];
+pub const PREFIXES: &[&str] = &["p16", "p32", "p64", "p128", "p8", "r16"];
 
 macro_rules! dispatch {
     ($t:expr, $l:expr, $f:ident, $($arg:expr),*) => {
         match ($t, $l) {
             ("u8", "p16") => $f::<u8, PodU16>($($arg),*), ("u8", "p32") => $f::<u8, PodU32>($($arg),*), ("u8", "p64") => $f::<u8, PodU64>($($arg),*), ("u8", "p128") => $f::<u8, PodU128>($($arg),*),
+            ("u8", "p8") => $f::<u8, u8>($($arg),*), ("u8", "r16") => $f::<u8, u16>($($arg),*),
             ("u16", "p16") => $f::<u16, PodU16>($($arg),*), ("u16", "p32") => $f::<u16, PodU32>($($arg),*), ("u16", "p64") => $f::<u16, PodU64>($($arg),*), ("u16", "p128") => $f::<u16, PodU128>($($arg),*),
+            ("u16", "p8") => $f::<u16, u8>($($arg),*), ("u16", "r16") => $f::<u16, u16>($($arg),*),
             ("b3", "p16") => $f::<[u8; 3], PodU16>($($arg),*), ("b3", "p32") => $f::<[u8; 3], PodU32>($($arg),*), ("b3", "p64") => $f::<[u8; 3], PodU64>($($arg),*), ("b3", "p128") => $f::<[u8; 3], PodU128>($($arg),*),
+            ("b3", "p8") => $f::<[u8; 3], u8>($($arg),*), ("b3", "r16") => $f::<[u8; 3], u16>($($arg),*),
             ("u32", "p16") => $f::<u32, PodU16>($($arg),*), ("u32", "p32") => $f::<u32, PodU32>($($arg),*), ("u32", "p64") => $f::<u32, PodU64>($($arg),*), ("u32", "p128") => $f::<u32, PodU128>($($arg),*),
+            ("u32", "p8") => $f::<u32, u8>($($arg),*), ("u32", "r16") => $f::<u32, u16>($($arg),*),
             ("u64", "p16") => $f::<u64, PodU16>($($arg),*), ("u64", "p32") => $f::<u64, PodU32>($($arg),*), ("u64", "p64") => $f::<u64, PodU64>($($arg),*), ("u64", "p128") => $f::<u64, PodU128>($($arg),*),
+            ("u64", "p8") => $f::<u64, u8>($($arg),*), ("u64", "r16") => $f::<u64, u16>($($arg),*),
             ("a16", "p16") => $f::<A16, PodU16>($($arg),*), ("a16", "p32") => $f::<A16, PodU32>($($arg),*), ("a16", "p64") => $f::<A16, PodU64>($($arg),*), ("a16", "p128") => $f::<A16, PodU128>($($arg),*),
+            ("a16", "p8") => $f::<A16, u8>($($arg),*), ("a16", "r16") => $f::<A16, u16>($($arg),*),
             ("m35", "p16") => $f::<ExtraAccountMeta, PodU16>($($arg),*), ("m35", "p32") => $f::<ExtraAccountMeta, PodU32>($($arg),*), ("m35", "p64") => $f::<ExtraAccountMeta, PodU64>($($arg),*), ("m35", "p128") => $f::<ExtraAccountMeta, PodU128>($($arg),*),
+            ("m35", "p8") => $f::<ExtraAccountMeta, u8>($($arg),*), ("m35", "r16") => $f::<ExtraAccountMeta, u16>($($arg),*),
             ("zst", "p16") => $f::<Zst, PodU16>($($arg),*), ("zst", "p32") => $f::<Zst, PodU32>($($arg),*), ("zst", "p64") => $f::<Zst, PodU64>($($arg),*), ("zst", "p128") => $f::<Zst, PodU128>($($arg),*),
+            ("zst", "p8") => $f::<Zst, u8>($($arg),*), ("zst", "r16") => $f::<Zst, u16>($($arg),*),
             ("t12", "p16") => $f::<T12, PodU16>($($arg),*), ("t12", "p32") => $f::<T12, PodU32>($($arg),*), ("t12", "p64") => $f::<T12, PodU64>($($arg),*), ("t12", "p128") => $f::<T12, PodU128>($($arg),*),
+            ("t12", "p8") => $f::<T12, u8>($($arg),*), ("t12", "r16") => $f::<T12, u16>($($arg),*),
             ("t24", "p16") => $f::<T24, PodU16>($($arg),*), ("t24", "p32") => $f::<T24, PodU32>($($arg),*), ("t24", "p64") => $f::<T24, PodU64>($($arg),*), ("t24", "p128") => $f::<T24, PodU128>($($arg),*),
+            ("t24", "p8") => $f::<T24, u8>($($arg),*), ("t24", "r16") => $f::<T24, u16>($($arg),*),
             _ => panic!("type combination"),
         }
     };
@@ -101,6 +113,11 @@ fn lv_bytes<T: Pod, L: spl_list_view::PodLength>(offset: usize, bytes: &[u8]) ->
     match rw {
         None => err = Some("unpack_mut panicked".into()),
         Some(s) => if s.split(" | ").next() != ro_s.split(" | ").next() { err = Some(format!("read-only and mutable opening disagree: {} vs {}", ro_s, s)); },
+    }
+    if std::mem::align_of::<L>() != 1 {
+        // a length-prefix type with an alignment requirement is not supported: every opening is an error
+        if !ro_s.starts_with("err") { err = Some("a view over an aligned length-prefix type was not rejected".into()); }
+        return (ro_s, err);
     }
     // property clauses stated directly
     let (sz, al) = (std::mem::size_of::<T>(), std::mem::align_of::<T>());
@@ -196,7 +213,8 @@ fn hist_op<T: Pod, L: spl_list_view::PodLength>(h: &mut Hist, op: &[&str]) -> (S
                 let al = std::mem::align_of::<T>(); let pad = if al <= 1 || wl % al == 0 { 0 } else { al - wl % al }; let hdr = wl + pad;
                 let base = h.arena.0.as_ptr() as usize + h.offset;
                 let well_formed = h.n >= hdr && (base + hdr) % al == 0 && (if sz == 0 { h.n == hdr } else { (h.n - hdr) % sz == 0 });
-                if well_formed && failed { err = Some("init rejected a buffer in the documented layout (count prefix, padding to the element alignment, whole elements)".into()); }
+                if std::mem::align_of::<L>() != 1 { if !failed { err = Some("init accepted an aligned length-prefix type".into()); } }
+                else if well_formed && failed { err = Some("init rejected a buffer in the documented layout (count prefix, padding to the element alignment, whole elements)".into()); }
                 if let Some(Ok(x)) = &r { if well_formed && sz > 0 && !x.ends_with(&format!("cap={}", (h.n - hdr) / sz)) { err = Some("capacity is not (buffer - header) / element size".into()); } }
             }
             if let Some(Ok(_)) = r { *sh = Some(vec![]); let al = std::mem::align_of::<T>(); let pad = if al <= 1 || wl % al == 0 { 0 } else { al - wl % al }; h.cap = if sz == 0 { 0 } else { (h.n - wl - pad) / sz }; }
